@@ -299,10 +299,12 @@ func c08Run(c c08Case) (fail *vlib.Failure, blockedAcquires int) {
 					return f, blockedAcquires
 				}
 			} else {
-				// after a release the lock can be taken again
-				if atomic.LoadUint32(&l.state) != 0 {
-					return vlib.Failf("%s: the lock is still taken after Release with nobody waiting", when), blockedAcquires
+				// after a release the lock can be taken again (asked through the API, not by
+				// looking at the lock word: how "free" is encoded is the lock's business)
+				if !l.TryToAcquire() {
+					return vlib.Failf("%s: the lock is still taken after Release with nobody waiting (a try-acquire by the harness fails)", when), blockedAcquires
 				}
+				l.Release()
 			}
 		}
 	}
@@ -394,6 +396,10 @@ type c08Stress struct {
 	Progs []c08Prog `json:"progs"`
 	Nb    uint32    `json:"nb,omitempty"` // value of the words next to the lock word
 	Place string    `json:"place,omitempty"` // address class of the lock (c08Places)
+	Locks int       `json:"locks,omitempty"` // number of independent locks contended at the same time (0 = 1)
+	// Age: every lock has been taken and released that many times by one task before the
+	// workers start (a lock that has been in use for a while)
+	Age int `json:"age,omitempty"`
 }
 
 type c08Record struct{ a, b, c, d uint64 }
@@ -408,23 +414,50 @@ func c08Spin(n int) {
 	atomic.AddUint64(&c08Sink, x&1)
 }
 
+// c08Domain is one lock with the data it protects.
+type c08Domain struct {
+	box      *c08Box
+	l        *Spinlock
+	holders  int32
+	counter  int // protected, non-atomic
+	rec      c08Record
+	success  int64
+}
+
 func c08RunStress(c c08Stress) (fail *vlib.Failure, contention int64) {
 	old := yieldFn
 	yieldFn = runtime.Gosched
 	defer func() { yieldFn = old }()
 
-	box := c08NewBox(c.Nb, c.Place)
-	defer box.free()
-	l := box.l
+	nlocks := c.Locks
+	if nlocks < 1 {
+		nlocks = 1
+	}
+	doms := make([]*c08Domain, nlocks)
+	for k := range doms {
+		place := c.Place
+		if k > 0 {
+			place = "" // further locks live on the heap
+		}
+		box := c08NewBox(c.Nb, place)
+		defer box.free()
+		doms[k] = &c08Domain{box: box, l: box.l}
+		for i := 0; i < c.Age; i++ {
+			if i%5 == 4 {
+				if !box.l.TryToAcquire() {
+					return vlib.Failf("single task, acquisition %d of a lock nobody else uses: TryToAcquire failed", i), 0
+				}
+			} else {
+				box.l.Acquire()
+			}
+			box.l.Release()
+		}
+	}
 	var (
-		holders  int32
-		counter  int // protected, non-atomic
-		rec      c08Record
 		overlaps int64
 		torn     int64
 		tryFail  int64
 		sawHeld  int64
-		success  int64
 		progress int64
 		wg       gosync.WaitGroup
 		start    = make(chan struct{})
@@ -434,6 +467,8 @@ func c08RunStress(c c08Stress) (fail *vlib.Failure, contention int64) {
 		go func(w int, p c08Prog) {
 			defer wg.Done()
 			<-start
+			d := doms[w%nlocks] // worker w uses lock w mod nlocks, and only that one
+			l := d.l
 			var mySuccess int64
 			for i := 0; i < p.Iters; i++ {
 				if (i*37+w*11)%100 < p.TryPct {
@@ -450,27 +485,27 @@ func c08RunStress(c c08Stress) (fail *vlib.Failure, contention int64) {
 					l.Acquire()
 				}
 				// ---- critical section
-				if atomic.AddInt32(&holders, 1) != 1 {
+				if atomic.AddInt32(&d.holders, 1) != 1 {
 					atomic.AddInt64(&overlaps, 1)
 				}
-				if rec.a != rec.b || rec.b != rec.c || rec.c != rec.d {
+				if d.rec.a != d.rec.b || d.rec.b != d.rec.c || d.rec.c != d.rec.d {
 					atomic.AddInt64(&torn, 1)
 				}
 				v := uint64(w)<<32 | uint64(i)
-				rec.a = v
+				d.rec.a = v
 				c08Spin(p.CSLen)
-				rec.b = v
-				counter++
-				rec.c = v
-				rec.d = v
+				d.rec.b = v
+				d.counter++
+				d.rec.c = v
+				d.rec.d = v
 				mySuccess++
 				atomic.AddInt64(&progress, 1)
-				atomic.AddInt32(&holders, -1)
+				atomic.AddInt32(&d.holders, -1)
 				// ---- end
 				l.Release()
 				c08Spin(p.Gap)
 			}
-			atomic.AddInt64(&success, mySuccess)
+			atomic.AddInt64(&d.success, mySuccess)
 		}(w, p)
 	}
 	finished := make(chan struct{})
@@ -494,10 +529,12 @@ watch:
 		}
 		if stall.Expired() {
 			// let the goroutines out before reporting
-			f := vlib.Failf("stress run made no progress for %v (acquires blocked although the lock is released after every critical section)", c08Patience)
+			f := vlib.Failf("stress run on %d lock(s) made no progress for %v (acquires blocked although every lock is released after every critical section)", nlocks, c08Patience)
 			giveUp := vlib.StartPatience(c08Patience)
 			for {
-				atomic.StoreUint32(&l.state, 0)
+				for _, d := range doms {
+					atomic.StoreUint32(&d.l.state, 0)
+				}
 				select {
 				case <-finished:
 					return f, 0
@@ -512,15 +549,23 @@ watch:
 	contention = tryFail + sawHeld
 	switch {
 	case overlaps != 0:
-		return vlib.Failf("mutual exclusion violated: %d critical sections overlapped", overlaps), contention
+		return vlib.Failf("mutual exclusion violated: %d critical sections overlapped (%d lock(s), each protecting its own data)", overlaps, nlocks), contention
 	case torn != 0:
 		return vlib.Failf("protected record seen in a torn state %d times", torn), contention
-	case int64(counter) != success:
-		return vlib.Failf("protected counter is %d after %d critical sections (lost updates)", counter, success), contention
-	case atomic.LoadUint32(&l.state) != 0:
-		return vlib.Failf("lock still taken after every holder released it"), contention
 	}
-	return box.intact(c.Nb), contention
+	for k, d := range doms {
+		switch {
+		case int64(d.counter) != d.success:
+			return vlib.Failf("lock %d of %d: protected counter is %d after %d critical sections (lost updates)", k, nlocks, d.counter, d.success), contention
+		case !d.l.TryToAcquire():
+			return vlib.Failf("lock %d of %d still taken after every holder released it (a try-acquire fails)", k, nlocks), contention
+		}
+		d.l.Release()
+		if f := d.box.intact(c.Nb); f != nil {
+			return f, contention
+		}
+	}
+	return nil, contention
 }
 
 func TestVerifC08Stress(t *testing.T) {
@@ -531,6 +576,10 @@ func TestVerifC08Stress(t *testing.T) {
 		c.Nb = rapid.SampledFrom(c08Neighbours).Draw(t, "neighbour-words")
 		c.Place = rapid.SampledFrom(c08Places).Draw(t, "place")
 		n := rapid.IntRange(2, 16).Draw(t, "workers")
+		c.Locks = rapid.SampledFrom([]int{1, 1, 2, 2, 3}).Draw(t, "locks")
+		if rapid.IntRange(0, 7).Draw(t, "aged") == 0 {
+			c.Age = rapid.SampledFrom([]int{250, 65400, 65530, 65536, 131000}).Draw(t, "age")
+		}
 		for i := 0; i < n; i++ {
 			c.Progs = append(c.Progs, c08Prog{
 				Iters:  rapid.IntRange(50, vlib.Scale(2000, 20000)).Draw(t, "iters"),
@@ -541,6 +590,12 @@ func TestVerifC08Stress(t *testing.T) {
 		}
 		fail, contention := c08RunStress(c)
 		labels := []string{"stress"}
+		if c.Locks > 1 {
+			labels = append(labels, "stress-several-locks-at-once")
+		}
+		if c.Age >= 60000 {
+			labels = append(labels, "stress-lock-taken-tens-of-thousands-of-times-before")
+		}
 		if contention > 0 {
 			labels = append(labels, "stress-contended")
 		} else {
